@@ -44,6 +44,11 @@ def main(repo):
             if name not in PIN:
                 raise Missing("%s not found in %s and no pinned value" % (name, cur["rel"]))
             same = [n for n, x in all_consts(cur["src"]) if x == PIN[name]]
+            measured = os.environ.get("GS_MEASURED_" + name)
+            if measured is not None:
+                notes.append("(* NOTE %s: pattern not found in %s; value %s MEASURED on the code's own output (no property fixes it) *)" % (name, cur["rel"], measured))
+                out.append("Definition %s : Z := %d." % (name, int(measured)))
+                return
             if len(same) == 1:
                 notes.append("(* NOTE %s: pattern not found in %s; taken from the constant %s of the same value (renamed) *)" % (name, cur["rel"], same[0]))
             else:
